@@ -461,7 +461,7 @@ def plan_C06(tier):
         qs += chain_queries(6, tier, variants=("full", "skip", "raw"))
         qs += sibling_queries(6, ("skip", "raw"))
         qs += deep_chain_queries(6, (17,), ("skip",))
-        qs += exhaustive_script_queries(6, 6, 5, 9, restarts=1)
+        qs += exhaustive_script_queries(6, 6, 5, 8)
         cfg = [(3, 5, 5, (2,)), (3, 6, 5, (1,))]
     else:
         qs += shape_variant_queries(6, 1, 8, witness_every=8) + shape_variant_queries(6, 2, 7, witness_every=8)
@@ -1135,7 +1135,7 @@ def plan_C12(tier):
     qs = []
     qs += reuse_queries(tier)
     # every protocol-following script with one reset somewhere in the middle
-    qs += exhaustive_script_queries(12, 6, 5, 9, restarts=1) if tier == "quick" else exhaustive_script_queries(12, 7, 6, 9, restarts=1)
+    qs += exhaustive_script_queries(12, 6, 5, 7, restarts=1) if tier == "quick" else exhaustive_script_queries(12, 7, 6, 9, restarts=1)
     ns = (0, 1, 2, 3, 5, 6) if tier == "quick" else range(0, 11)
     for n in ns:
         for root in (1, 2):
